@@ -208,7 +208,47 @@ def r5_builder_rejections(ctx):
     ctx.check(len(adds) == 1, 'registered-once', 'the new node is entered into the module tree exactly once', f.where())
 
 
+def r6_path_offsets(ctx):
+    """ObjectPath bookkeeping works on byte offsets: a count of characters must never be used as (or mixed into) a byte offset"""
+    ctx.set_rule('C12.R6')
+    P = ctx.P
+    fs = [f for f in P.fn_list if f.key.startswith(('des::net::path::', '<des::net::path::')) and f.kind != 'promoted']
+    ctx.floor('ObjectPath functions', len(fs), 10)
+    n = 0
+    bad = []
+    for f in fs:
+        ctx.touch(f)
+        for b in sorted(f.reachable()):
+            for i, st in enumerate(f.stmts(b)):
+                if st['k'] != 'assign':
+                    continue
+                t = f.expr_rvalue(st['r'], b, i)
+                n += 1
+                # a char count ...
+                cnt = [x for x in walk(t) if x[0] == 'call' and x[1].split('::')[-1] == 'count' and
+                       any(y[0] == 'call' and y[1].endswith(('::chars', '::char_indices')) for y in walk(x))]
+                if not cnt:
+                    continue
+                # ... combined arithmetically with a byte length, or stored into an offset field / used as slice index
+                mixes = any(x[0] == 'bin' and any(y[0] == 'call' and y[1].endswith(('str::len', 'String::len')) for y in walk(x)) for x in walk(t))
+                fl = [e for e in st['p']['pr'] if e['k'] == 'field']
+                to_offset = bool(fl) and 'offset' in (fl[-1].get('n') or '')
+                agg_off = t[0] == 'agg' and any('offset' in nm and any(z in cnt for z in walk(op)) for nm, op in zip(t[3], t[2]))
+                if mixes or to_offset or agg_off:
+                    bad.append((f, b))
+        for s in f.calls():
+            if s.name.split('::')[-1] in ('index', 'split_at', 'get', 'truncate', 'split_off', 'drain') and ('str' in s.name or 'String' in s.name) and len(s.args) > 1:
+                t = f.expr_operand(s.args[1], s.b, 'T')
+                if any(x[0] == 'call' and x[1].split('::')[-1] == 'count' and any(y[0] == 'call' and y[1].endswith(('::chars', '::char_indices')) for y in walk(x)) for x in walk(t)):
+                    bad.append((f, s.b))
+    for f, b in bad:
+        ctx.violation('char-count-as-byte-offset:%s' % f.key, 'a number of characters is used as a byte offset into the path string: paths with multi-byte characters get a parent/name that disagrees with the declared tree', f.where(b))
+    if not bad:
+        ctx.ok('no character count is used as a byte offset in ObjectPath (%d assignments examined)' % n)
+
+
 def run(ctx):
+    r6_path_offsets(ctx)
     r1_r2_startup(ctx)
     r3_insertion_rule(ctx)
     r4_teardown(ctx)
